@@ -502,6 +502,15 @@ def rule_r11(prog, res):
                     l, r = operands[i], operands[i + 1]
                     rel = None
                     for a, b, flip in ((l, r, False), (r, l, True)):
+                        if isinstance(b, ast.Name):
+                            # a local that holds the facet
+                            vs = [x.value for x in walk_no_defs(f.node)
+                                  if isinstance(x, ast.Assign) and any(
+                                      isinstance(t_, ast.Name) and
+                                      t_.id == b.id for t_ in x.targets)]
+                            if len(vs) == 1 and isinstance(
+                                    vs[0], ast.Attribute):
+                                b = vs[0]
                         if isinstance(a, ast.Call) and call_name(a) == 'len' \
                                 and isinstance(b, ast.Attribute) and \
                                 b.attr in _LEN_FACETS:
@@ -872,6 +881,56 @@ def rule_r20(prog, res):
     res.floor('R20', 'pattern compilations in the attribute setters', n, 1)
 
 
+def rule_r21(prog, res):
+    from . import c16
+    from ..report import Result
+    res.share('R21', 'the XML writer emits inherited members under the '
+              'namespace of the class that declares them, as the schema '
+              'extension chain says (C16-R1)', 'C16', c16.rule_r1, prog,
+              Result)
+
+
+def rule_r22(prog, res):
+    res.rule('R22', 'a schema imports every other namespace it refers to: '
+             'the decision to import looks at the import set of that schema, '
+             'never at whether the namespace has a schema of its own')
+    from .. import guardspec
+    itf = prog.cls('spyne.interface._base:Interface')
+    n = 0
+    for nm, f in sorted(itf.methods.items()):
+        for c in calls_in(f.node):
+            if not (call_name(c) == 'add' and isinstance(
+                    c.func, ast.Attribute) and isinstance(
+                    c.func.value, ast.Subscript) and unparse(
+                    c.func.value.value) == 'self.imports' and c.args):
+                continue
+            n += 1
+            st = c
+            while not isinstance(st, ast.stmt):
+                st = parent(st)
+            own = unparse(c.func.value).replace(' ', '')
+            bad = []
+            for e, pol in flatten_guards(guards_at(st, stop=f.node)):
+                for cmp_ in ast.walk(e):
+                    if isinstance(cmp_, ast.Compare) and isinstance(
+                            cmp_.ops[0], (ast.In, ast.NotIn)) and unparse(
+                            cmp_.comparators[0]).replace(' ', '') == \
+                            'self.imports':
+                        bad.append(unparse(e))
+            where = '%s:%d' % (f.module.relpath, c.lineno)
+            res.ob('R22', where, 'Interface.%s adds %s to %s' % (
+                nm, unparse(c.args[0]), own), 'VIOLATED' if bad else 'ok')
+            if bad:
+                res.finding('R22', 'Interface.%s|import-skipped-for-known-'
+                            'namespace' % nm, where, 'the import of %s into '
+                            '%s depends on "%s": the keys of self.imports are '
+                            'the namespaces that already have a schema, so a '
+                            'namespace that was seen before is never imported '
+                            'and the reference to its types dangles' % (
+                                unparse(c.args[0]), own, bad[0]))
+    res.floor('R22', 'import registrations in Interface', n, 6)
+
+
 def run(prog, res, tier):
     res.run_rule(rule_r1, prog, res)
     res.run_rule(rule_r2, prog, res)
@@ -893,12 +952,20 @@ def run(prog, res, tier):
     res.run_rule(rule_r18, prog, res)
     res.run_rule(rule_r19, prog, res)
     res.run_rule(rule_r20, prog, res)
+    res.run_rule(rule_r21, prog, res)
+    res.run_rule(rule_r22, prog, res)
 
 
 _M = 'spyne/interface/xml_schema/model.py'
 _I = 'spyne/interface/_base.py'
 
 MUTANTS = [
+    Mutant('message-import-skipped-for-known-namespace', 'R22', 'fire',
+           'spyne/interface/_base.py',
+           in_func('Interface.add_method',
+                   "        if in_message_ns != self.get_tns() and \\\n",
+                   "        if not (in_message_ns in self.imports) and \\\n"),
+           'import-skipped-for-known-namespace'),
     Mutant('pattern-compiled-ascii', 'R20', 'fire', 'spyne/model/_base.py',
            in_func('SimpleModelAttributesMeta.set_pattern',
                    "self._pattern_re = re.compile(pattern)",
